@@ -50,7 +50,7 @@ def cases(draw):
         op = draw(st.sampled_from(R_OPS))
     d = draw(st.sampled_from([1, 2, 2, 3]))
     if op == "image":
-        d = draw(st.sampled_from([1, 2, 3, 4, 4]))      # (the renderer has one code path per dimensionality)
+        d = draw(st.sampled_from([1, 2, 3, 4, 2, 3]))   # (the renderer has one code path per dimensionality; 4 ranks cost seconds)
     if op in ("f_add_fiber", "f_mul_fiber"):
         d = draw(st.sampled_from([1, 2, 2, 3, 2]))      # (with fibers below the operand + and * recurse)
     if op == "swizzle":
